@@ -267,7 +267,7 @@ func c12Handler(c *Ctx) {
 		n := len(ref.Segments)
 		for it := 0; it < c.N(6, 40); it++ {
 			kind := r.PickS("stpp", "wvtt")
-			lang := r.PickS("en", "sv", "zz")
+			lang := r.PickS("en", "sv", "zz", "pt-BR", "zh-Hans") // (languages with subtags: the id has further hyphens)
 			cueDur := r.Pick(900, 250, 1000, 500)
 			longCue := r.Intn(4) == 0
 			if longCue {
